@@ -938,9 +938,12 @@ impl EvCell {
                     .iter()
                     .filter(|w| w.client == c && w.channel == UPD && w.server_frame <= flush_frame)
                     .map(|w| w.tick)
-                    .max()
-                    .unwrap_or(0);
-                if o.update_tick < required {
+                    .last();
+                // ticks wrap around: "older" is decided by wrapping distance, the newest update
+                // message is the last one sent
+                let older = |a: u32, b: u32| (b.wrapping_sub(a) as i32) > 0;
+                let required = required.unwrap_or(o.update_tick);
+                if older(o.update_tick, required) {
                     return Err(self
                         .v(
                             "event-before-replication",
